@@ -94,7 +94,10 @@ URL_IN_HTML_BINARY_RE = re.compile(URL_IN_HTML_BINARY, re.I)
 QUERY_VALUE_IN_URL_TEMPLATE = r"(?:^|[?&])(%s)=([^&]+)"
 QUERY_VALUE_TEMPLATE = r"%s=([^&]+)"
 
-DOMAIN_TEMPLATE = r"^(?:https?:)?(?://)?(?:\S+(?::\S*)?@)?%s(?:[:/#]|\s*$)"
+# NOTE: the userinfo cannot contain "/", "?" or "#" and the host ends at the
+# first ":", "/", "?" or "#" (%s must therefore not match those either)
+DOMAIN_LABEL = r"[^.:/?#@\s]+"
+DOMAIN_TEMPLATE = r"^(?:https?:)?(?://)?(?:[^/?#@\s]*@)?%s(?:[:/?#]|\s*$)"
 
 SCRIPT_TAG = r"<script\b[^<]*(?:(?!<\/script>)<[^<]*)*<\/script>"
 SCRIPT_TAG_BINARY = SCRIPT_TAG.encode()
